@@ -251,6 +251,8 @@ func runC12(c *Ctx) {
 	checkCacheMergeFold(c, "R2.6")
 	checkResolversNotMemoised(c, "R12.11")
 	checkExcerptsDeletedOnlyByRemoval(c, "R11.13")
+	checkMetadataFilterPresence(c, "R12.12")
+	checkQueryEditorComments(c, "R12.13")
 	checkRepairQuery(c)
 	checkMatch(c)
 	checkLexerAutomaton(c)
